@@ -132,6 +132,161 @@ def run(ctx, rep):
     rep.sample(dict(line=lines[0], impl=canon(impls[0]), model=decode(outs[0])))
     rep.sample(dict(case=dict(penalty=cases[-1][0].describe(), wt=cases[-1][1], x=cases[-1][2],
                               step=cases[-1][3]), impl=canon(impls[-1])))
+    run_blocks(ctx, rep)
+    slope_cases(ctx, rep)
+
+
+def block_obj(blk, wg, wf, x, s, u):
+    v = blk.ref_pen(u, wg, wf)
+    if math.isinf(v):
+        return math.inf
+    return 0.5 * float(np.sum((np.asarray(u) - x) ** 2)) + s * v
+
+
+def block_cands(rng, blk, wg, wf, x, s, r, m):
+    k = len(x)
+    cands = [np.zeros(k), np.array(x, float)]
+    if r is not None:
+        cands.append(np.array(r, float))
+    if m is not None and len(m) == k and all(isinstance(t, float) and math.isfinite(t) for t in m):
+        cands.append(np.array(m, float))
+    bases = [np.array(x, float), np.maximum(x, 0.0)]
+    if blk.kind == "wl1gl2":
+        bases.append(np.sign(x) * np.maximum(0, np.abs(x) - blk.alpha * s * np.asarray(wf)))
+    for base in bases:
+        for c in np.linspace(0, 1.2, 61):
+            cands.append(c * base)
+    if r is not None and all(math.isfinite(t) for t in r):
+        r = np.array(r, float)
+        for d in (1e-3, 1e-2, 0.1):
+            for i in range(k):
+                for sg in (-1, 1):
+                    e = np.zeros(k)
+                    e[i] = sg * d
+                    cands.append(r + e)
+            for _ in range(6):
+                cands.append(r + d * np.array([rng.gauss(0, 1) for _ in range(k)]))
+    return cands
+
+
+def block_cases(ctx):
+    """(blk, wg, wf, x, s, site, impl result) for every block prox kernel"""
+    from ..blocks import blocks, Blk, group_layout, compiled_blk
+    rng = ctx.rng
+    vals = [0.0, 0.0, 0.5, -0.5, 1.0, -1.0, 2.0, -2.0, 0.25, 3.0]
+    steps = [0.125, 0.25, 0.5, 1.0, 2.0]
+    n_per = ctx.n(12, 200)
+    for blk in blocks():
+        for _ in range(n_per):
+            s = gen.pick(rng, steps)
+            if blk.kind in Blk.ROW:
+                k = rng.randrange(1, 5)
+                x = np.array([gen.pick(rng, vals) if rng.random() < 0.8 else rng.gauss(0, 1) for _ in range(k)])
+                if rng.random() < 0.15:
+                    x[:] = 0.0
+                obj = compiled_blk(blk)
+                r = call(obj.prox_1feat, x.copy(), float(s), 0)
+                yield blk, 1.0, np.ones(k), x, s, f"{blk.cls_name()}.prox_1feat", r, dict()
+            else:
+                p = rng.randrange(1, 8)
+                groups, gp, gi = group_layout(rng, p)
+                wgs = np.array([gen.pick(rng, [0.0, 0.5, 1.0, 2.0]) for _ in groups])
+                wfs = np.array([gen.pick(rng, [0.0, 0.25, 0.5, 1.0, 2.0]) for _ in range(p)])
+                obj = compiled_blk(blk, wgs, wfs, gp, gi)
+                for g, idx in enumerate(groups):
+                    x = np.array([gen.pick(rng, vals) if rng.random() < 0.8 else rng.gauss(0, 1) for _ in idx])
+                    if rng.random() < 0.15:
+                        x[:] = 0.0
+                    r = call(obj.prox_1group, x.copy(), float(s), g)
+                    yield (blk, float(wgs[g]), wfs[idx], x, s, f"{blk.cls_name()}.prox_1group", r,
+                           dict(groups=groups, weights_groups=wgs.tolist(), weights_features=wfs.tolist(), g=g))
+
+
+def run_blocks(ctx, rep):
+    from ..proto import vec
+    cases = list(block_cases(ctx))
+    lines = [f"blk_prox {blk.tokens()} {fb(wg)} {vec(wf)} {vec(x)[len(str(len(x)))+1:]} {fb(s)}"
+             for blk, wg, wf, x, s, site, r, extra in cases]
+    outs = lean.drive(lines)
+    for (blk, wg, wf, x, s, site, r, extra), line, out in zip(cases, lines, outs):
+        m = decode(out)
+        i = canon(r)
+        sig = dict(site=site, positive=bool(blk.positive))
+        inp = dict(penalty=blk.describe(), weight_group=wg, block_feature_weights=list(map(float, wf)),
+                   x=x.tolist(), step=s, **extra)
+        zero = not isinstance(r, str) and not np.any(np.asarray(r))
+        rep.count(f"{blk.kind}:{'raise' if isinstance(r, str) else 'zero' if zero else 'shrunk'}",
+                  isinstance(r, str) or zero, (blk.key(), wg, tuple(wf), tuple(x), s))
+        if not blk.admissible_step(s):
+            continue
+        if not same(i, m):
+            rep.disagree("K:blk_prox", line, i, m, sig, input=inp)
+        if isinstance(r, str) or not np.all(np.isfinite(r)):
+            rep.violate(f"{site} is not finite / raises on a finite input", dict(sig, kind="nonfinite"),
+                        input=inp, impl_output=i, lines=[line])
+            continue
+        got = block_obj(blk, wg, wf, x, s, r)
+        cands = block_cands(ctx.rng, blk, wg, wf, x, s, r, m)
+        best = min(cands, key=lambda u: block_obj(blk, wg, wf, x, s, u))
+        bo = block_obj(blk, wg, wf, x, s, best)
+        if not got <= bo + 1e-9 * (1 + abs(bo)):
+            rep.violate(f"{site} does not return a global minimiser of the prox objective",
+                        dict(sig, kind="not-minimiser"), input=inp, impl_output=i,
+                        oracle=dict(name="candidate search on the documented prox objective", impl_obj=got,
+                                    better_obj=bo, better_u=np.asarray(best).tolist()), lines=[line], model_output=m)
+    if cases:
+        rep.sample(dict(line=lines[-1], impl=canon(cases[-1][6]), model=decode(outs[-1])))
+
+
+def slope_cases(ctx, rep):
+    """SLOPE prox_vec against the model's stack PAVA and a perturbation oracle"""
+    from ..impl import compiled
+    from ..proto import vec
+    import skglm.penalties as P
+    rng = ctx.rng
+    lines, rs, meta = [], [], []
+    for _ in range(ctx.n(150, 3000)):
+        p = rng.randrange(1, 8)
+        al = sorted([gen.pick(rng, [0.0, 0.25, 0.5, 1.0, 1.0, 2.0]) for _ in range(p)], reverse=True)
+        if rng.random() < 0.2:
+            al = [al[0]] * p
+        x = np.array([gen.pick(rng, gen.grid8(24)) if rng.random() < 0.8 else rng.gauss(0, 2) for _ in range(p)])
+        s = gen.pick(rng, [0.25, 0.5, 1.0, 2.0])
+        obj = compiled(P.SLOPE(np.array(al, float)))
+        r = call(obj.prox_vec, x.copy(), float(s))
+        ax = np.abs(x)
+        order = np.argsort(ax)[::-1]
+        lines.append(f"prox_SLOPE {vec(ax[order])} {vec(np.array(al) * s)}")
+        rs.append(r)
+        meta.append((x, al, s, order))
+    outs = lean.drive(lines)
+    for line, out, r, (x, al, s, order) in zip(lines, outs, rs, meta):
+        m = decode(out)
+        inp = dict(alphas=al, x=x.tolist(), step=s)
+        sig = dict(site="SLOPE.prox_vec", positive=False)
+        rep.count("slope", isinstance(r, str) or not np.any(r), ("slope", tuple(x), tuple(al), s))
+        if isinstance(r, str) or not np.all(np.isfinite(r)):
+            rep.violate("SLOPE.prox_vec is not finite / raises", dict(sig, kind="nonfinite"), input=inp,
+                        impl_output=canon(r))
+            continue
+        i = canon(np.abs(r)[order])
+        if not same(i, m):
+            rep.disagree("K:prox_SLOPE", line, i, m, sig, input=inp)
+
+        def F(u):
+            return 0.5 * float(np.sum((u - x) ** 2)) + s * float(np.sum(np.sort(np.abs(u))[::-1] * np.array(al)))
+        got = F(np.asarray(r))
+        cands = [np.zeros_like(x), x.copy()]
+        for d in (1e-3, 1e-2, 0.1, 0.5):
+            for _ in range(10):
+                cands.append(np.asarray(r) + d * np.array([ctx.rng.gauss(0, 1) for _ in x]))
+            for c in (1 - d, 1 + d):
+                cands.append(c * np.asarray(r))
+        bo = min(F(u) for u in cands)
+        if not got <= bo + 1e-9 * (1 + abs(bo)):
+            rep.violate("SLOPE.prox_vec does not return a global minimiser (the objective is convex: a better "
+                        "nearby point refutes optimality)", dict(sig, kind="not-minimiser"), input=inp,
+                        impl_output=canon(r), oracle=dict(impl_obj=got, better_obj=bo))
 
 
 def replay(ctx, payload):
